@@ -654,6 +654,9 @@ func (fx *FuncCtx) stepConvert(st *State, x *ssa.Convert) {
 		h := fx.heapGet(st, name, cs)
 		fx.heapSet(st, name, cs, "(store "+h+" "+r+" ("+n+" "+v.T+"))")
 		l := fx.u.slen(v.T)
+		// converting back gives the same string
+		b2s := fx.u.uf("bytes2str", "(declare-fun bytes2str ((Array Int Int) Int Int) "+fx.u.strSort()+")")
+		fx.assume(st, "(= ("+b2s+" ("+n+" "+v.T+") 0 "+l+") "+v.T+")")
 		fx.vals[x] = &Val{T: fx.define(x.Name(), "Sl", "(mk_sl "+r+" 0 "+l+" "+l+")"), Ty: to}
 	case isByteSlice(from) && isString(to):
 		n := fx.u.uf("bytes2str", "(declare-fun bytes2str ((Array Int Int) Int Int) "+fx.u.strSort()+")")
